@@ -25,7 +25,7 @@ PROPS = {
  "C01": {
   "module": "Zog.Props.C01",
   "theorems": COMMON + [P + "C01." + t for t in ["success_means_valid_spec", "success_means_valid", "success_means_valid_all", "validU_at_prim", "prim_no_issue_sat", "complex_tests_hold", "success_means_every_visit_clean", "visits_only_append", "engine_success_iff"]] + ["Zog.Spec.validU_of_clean", "Zog.Spec.proc_cleanLocal"],
-  "streams": [eng(2500, 150000), eng(2000, 100000, "catch"), eng(2500, 100000, "nearsuccess"), eng(2000, 100000, "retype"), st("http", 700, 12000)],
+  "streams": [eng(2500, 150000), eng(2000, 100000, "catch"), eng(2500, 100000, "nearsuccess"), eng(2000, 100000, "retype"), st("http", 700, 12000), st("helpers", 600, 20000)],
   "trusted_base": ENGINE_TB, "assumptions": ENGINE_ASSUME,
  },
  "C02": {
@@ -101,7 +101,7 @@ PROPS = {
  },
  "C14": {
   "module": "Zog.Props.C14",
-  "theorems": COMMON + [P + "C14." + t for t in ["absent_inputs_equivalent_prim", "absent_inputs_equivalent_slice", "absent_inputs_equivalent_ptr", "flat_vs_map_lookup", "key_per_source", "bool_rendering", "string_rendering", "atoi_inverts_itoa", "int_schemas_read_renderings", "whole_record_flat_vs_map", "whole_record_flat_vs_map_engine", "int_rendering_examples", "nested_flat_source_fails", "engine_mirrors"]] + ["Zog.Spec.flat_and_map_views_agree", "Zog.Spec.viewEq_leaf", "Zog.Spec.fieldLoop_views", "Zog.atoi_toString"],
+  "theorems": COMMON + [P + "C14." + t for t in ["absent_inputs_equivalent_prim", "absent_inputs_equivalent_slice", "absent_inputs_equivalent_ptr", "flat_vs_map_lookup", "key_per_source", "bool_rendering", "string_rendering", "atoi_inverts_itoa", "int_schemas_read_renderings", "whole_record_flat_vs_map", "whole_record_flat_vs_map_engine", "int_rendering_examples", "nested_flat_source_fails", "engine_mirrors", "request_source_as_documented"]] + ["Zog.Spec.flat_and_map_views_agree", "Zog.Spec.viewEq_leaf", "Zog.Spec.fieldLoop_views", "Zog.atoi_toString"],
   "streams": [st("front", 600, 20000), st("http", 800, 12000)],
   "trusted_base": ["PARTIAL: proved for whole FLAT records (`whole_record_flat_vs_map`: every struct schema, record, source tag, visit order and destination; leaves: strings, 64-bit integers via `atoi (toString n) = n`, booleans, repeated values, any leaf whose two presentations its coercer reads alike) between the flat sources (form/query/env) and the map sources (Go map, decoded JSON); that each real front end presents the record as `flatView` / `mapView` describe (encoding/json, net/http, os.Getenv, env trimming) is validated by the S-front stream, not proved; below depth 1 the full statement is false (known finding D17) and the model mirrors the code",
                    "external, taken from the standard library by the harness: encoding/json, net/http ParseForm / URL.Query, os.Getenv"] + ENGINE_TB,
@@ -144,8 +144,8 @@ PROPS = {
  },
  "C10": {
   "module": "Zog.Props.C10",
-  "theorems": [P + "C10." + t for t in ["get_append", "inv_add", "issue_map_well_formed", "root_key", "nonroot_key", "render_is_joinSpec", "key_source_tag_first", "tagName_plain", "tagName_no_comma", "tagName_idem", "key_source_tag_without_name", "key_zog_tag_next", "key_schema_key_last", "key_validate", "issue_path_override", "sanitize_keys", "sanitize_list_length", "sanitize_get", "issues_addressed_at_every_depth", "node_files_below_itself"]] + ["Zog.Spec.proc_at"],
-  "streams": [st("path", 3000, 200000), eng(2500, 100000), eng(1200, 60000, "deep"), eng(300, 6000, "long"), st("front", 400, 10000)],
+  "theorems": [P + "C10." + t for t in ["get_append", "inv_add", "issue_map_well_formed", "root_key", "nonroot_key", "render_is_joinSpec", "key_source_tag_first", "tagName_plain", "tagName_no_comma", "tagName_idem", "key_source_tag_without_name", "key_zog_tag_next", "key_schema_key_last", "key_validate", "issue_path_override", "sanitize_keys", "sanitize_list_length", "sanitize_get", "issues_addressed_at_every_depth", "node_files_below_itself", "request_source_as_documented"]] + ["Zog.Spec.proc_at"],
+  "streams": [st("path", 3000, 200000), eng(2500, 100000), eng(1200, 60000, "deep"), eng(300, 6000, "long"), st("front", 400, 10000), st("http", 700, 12000)],
   "trusted_base": ["modelled, not verified: lean/Zog/Path.lean mirrors internals/PathBuilder.go String and internals/Issues.go ErrsMap.Add; keyFor mirrors internals/DataProviders.go GetKeyFromField"] + ENGINE_TB,
   "assumptions": ["no issue is addressed to the reserved key `$first` (IssuePath(\"$first\") is outside the property)"] + ENGINE_ASSUME,
  },
